@@ -55,7 +55,7 @@ def lines_of(out):
 
 def c18(res, tier, seed):
     wd = yv.workdir("C18")
-    m = yv.tlc("CliQueue", "MC_CliQueue.cfg", wd, timeout=1200)
+    m = yv.tlc("CliQueue", "MC_CliQueue.cfg", wd, timeout=1200, tier=tier)
     if not m["violated"]:
         yv.require_tlc_ok(m, "MC_CliQueue.cfg")
     res.add_tlc("cliqueue", m)
